@@ -187,7 +187,10 @@ def run_tlc(module, cfg, workers=12, timeout=3600, extra_args=(), env_extra=None
             "transitions": states or 0, "ok": ok and p.returncode == 0 or (bool(simulate) and ok),
             "rc": p.returncode, "errors": err_lines[:20], "coverage": cov, "wall_s": round(wall, 1),
             "out": out_p, "cases": n_case, "cmd": " ".join(cmd), "cached": False}
-    if meta["ok"]:
+    if not cache:
+        if n_case == 0 and os.path.exists(out_p):
+            os.unlink(out_p)          # nothing to read back, nothing to keep (generated, per-process modules)
+    elif meta["ok"]:
         json.dump(meta, open(meta_p + ".%d" % os.getpid(), "w"))
         os.replace(meta_p + ".%d" % os.getpid(), meta_p)
     return meta
